@@ -13,6 +13,8 @@ package main
 import (
 	"bufio"
 	"bytes"
+	"compress/gzip"
+	"io"
 	"encoding/json"
 	"flag"
 	"fmt"
@@ -163,25 +165,61 @@ func loadFindings() findingsFile {
 	return ff
 }
 
-// loadCases returns id -> group for one property.
+// loadCases returns id -> group for one property. The list is stored as
+// findings/<prop>.cases ("id group" per line), gzip-compressed when large.
 func loadCases(prop string) map[string]string {
 	m := map[string]string{}
-	f, err := os.Open(filepath.Join(verifDir, "findings", prop+".cases"))
-	if err != nil {
-		return m
-	}
-	defer f.Close()
-	sc := bufio.NewScanner(f)
-	sc.Buffer(make([]byte, 1<<20), 1<<20)
-	for sc.Scan() {
-		fs := strings.Fields(sc.Text())
-		if len(fs) >= 2 {
-			m[fs[0]] = fs[1]
-		} else if len(fs) == 1 {
-			m[fs[0]] = ""
+	read := func(r io.Reader) {
+		sc := bufio.NewScanner(r)
+		sc.Buffer(make([]byte, 1<<20), 1<<20)
+		for sc.Scan() {
+			fs := strings.Fields(sc.Text())
+			if len(fs) >= 2 {
+				m[fs[0]] = fs[1]
+			} else if len(fs) == 1 {
+				m[fs[0]] = ""
+			}
 		}
 	}
+	if f, err := os.Open(filepath.Join(verifDir, "findings", prop+".cases")); err == nil {
+		read(f)
+		f.Close()
+	}
+	if f, err := os.Open(filepath.Join(verifDir, "findings", prop+".cases.gz")); err == nil {
+		if zr, err := gzip.NewReader(f); err == nil {
+			read(zr)
+			zr.Close()
+		}
+		f.Close()
+	}
 	return m
+}
+
+func saveCases(prop string, lines []string) error {
+	plain := filepath.Join(verifDir, "findings", prop+".cases")
+	gz := plain + ".gz"
+	os.Remove(plain)
+	os.Remove(gz)
+	if len(lines) == 0 {
+		return nil
+	}
+	data := []byte(strings.Join(lines, "\n") + "\n")
+	if len(lines) <= 20000 {
+		return os.WriteFile(plain, data, 0o644)
+	}
+	f, err := os.Create(gz)
+	if err != nil {
+		return err
+	}
+	zw, _ := gzip.NewWriterLevel(f, gzip.BestCompression)
+	zw.ModTime = time.Unix(0, 0)
+	if _, err := zw.Write(data); err != nil {
+		return err
+	}
+	if err := zw.Close(); err != nil {
+		return err
+	}
+	return f.Close()
 }
 
 // ------------------------------------------------------------------ running
@@ -568,10 +606,7 @@ func doCurate(prop, tier string, fails []proto.Fail) int {
 	}
 	sort.Strings(lines)
 	os.MkdirAll(filepath.Join(verifDir, "findings"), 0o755)
-	path := filepath.Join(verifDir, "findings", prop+".cases")
-	if len(lines) == 0 {
-		os.Remove(path)
-	} else if err := os.WriteFile(path, []byte(strings.Join(lines, "\n")+"\n"), 0o644); err != nil {
+	if err := saveCases(prop, lines); err != nil {
 		fmt.Println(err)
 		return 2
 	}
